@@ -126,8 +126,9 @@ const (
 var c02FaultCodes = []string{"", "EniPerInstanceLimitExceeded", "InvalidVSwitchId.IpNotEnough", "QuotaExceeded.PrivateIpAddress", "Throttling", "InvalidOperation.Ipv4CountExceeded", "InvalidOperation.Ipv6CountExceeded", "InvalidOperation.InvalidEniState"}
 
 func c02GenFault(t *rapid.T, eflo bool) cloudctl.Fault {
-	kinds := []string{cloudctl.KCreate, cloudctl.KCreate, cloudctl.KAttach, cloudctl.KAttach, cloudctl.KWait, cloudctl.KAssign4, cloudctl.KAssign4, cloudctl.KAssign6,
-		cloudctl.KUnAssign4, cloudctl.KUnAssign6, cloudctl.KDelete, cloudctl.KDelete, cloudctl.KDetach, cloudctl.KDescribe, cloudctl.KVSwitch}
+	kinds := []string{cloudctl.KCreate, cloudctl.KCreate, cloudctl.KCreate, cloudctl.KAttach, cloudctl.KAttach, cloudctl.KAttach, cloudctl.KWait, cloudctl.KWait,
+		cloudctl.KAssign4, cloudctl.KAssign4, cloudctl.KAssign4, cloudctl.KAssign6, cloudctl.KAssign6,
+		cloudctl.KUnAssign4, cloudctl.KUnAssign6, cloudctl.KDelete, cloudctl.KDelete, cloudctl.KDelete, cloudctl.KDetach, cloudctl.KDescribe, cloudctl.KVSwitch}
 	f := cloudctl.Fault{Kind: rapid.SampledFrom(kinds).Draw(t, "fkind")}
 	f.Mode = rapid.SampledFrom([]string{cloudctl.FBefore, cloudctl.FBefore, cloudctl.FAfter, cloudctl.FPartial}).Draw(t, "fmode")
 	switch f.Kind {
@@ -254,8 +255,9 @@ func c02GenPre(t *rapid.T, n c02Node, nSlots int, mode string) []c02PreENI {
 			if p.Rec == "absent" {
 				p.Binds = nil
 			}
-			if p.Type == "erdma" && !n.ERDMA {
-				p.Type = "secondary"
+			p.N4, p.N6 = min(p.N4, n.V4Per), min(p.N6, n.V6Per)
+			if (p.Type == "erdma" && !n.ERDMA) || (p.Type == "trunk" && !n.Trunk) {
+				p.Type = "secondary" // only kinds the flavor knows
 			}
 		}
 		out = append(out, p)
@@ -271,7 +273,7 @@ func c02GenOp(t *rapid.T, mode string, n c02Node, nSlots int) c02Op {
 		// drift or controller restarts
 		kinds = []string{"create", "create", "create", "create", "create", "delete", "delete", "exit", "cniadd", "cniadd", "reportdeleted", "reportdeleted",
 			"reconcile", "reconcile", "reconcile", "reconcile", "reconcile", "reconcile", "reconcile", "fullsync", "apifault", "apifault",
-			"cloudfault", "cloudfault", "cloudfault", "cloudfault", "burst"}
+			"cloudfault", "cloudfault", "episode", "episode", "episode", "episode", "episode", "burst"}
 	} else {
 		kinds = append(kinds, "burst", "drift", "restart")
 	}
@@ -299,6 +301,15 @@ func c02GenOp(t *rapid.T, mode string, n c02Node, nSlots int) c02Op {
 		for i := 0; i < nf; i++ {
 			o.Faults = append(o.Faults, c02GenFault(t, n.EFLO))
 		}
+	case "episode": // faults (cloud and/or API server) placed right before demand arrives
+		nf := rapid.IntRange(1, 3).Draw(t, "nf")
+		for i := 0; i < nf; i++ {
+			o.Faults = append(o.Faults, c02GenFault(t, n.EFLO))
+		}
+		o.API = rapid.SampledFrom([]string{"", "", "", "conflict", "statuserr", "statusafter"}).Draw(t, "api")
+		o.A = rapid.IntRange(0, nSlots-1).Draw(t, "slot")
+		o.B = rapid.IntRange(1, nSlots).Draw(t, "n")
+		o.C = rapid.IntRange(1, 3).Draw(t, "times")
 	}
 	return o
 }
@@ -355,8 +366,8 @@ type c02PodView struct {
 
 type c02DropRecorder struct{}
 
-func (c02DropRecorder) Event(runtime.Object, string, string, string)                    {}
-func (c02DropRecorder) Eventf(runtime.Object, string, string, string, ...interface{})    {}
+func (c02DropRecorder) Event(runtime.Object, string, string, string)                  {}
+func (c02DropRecorder) Eventf(runtime.Object, string, string, string, ...interface{}) {}
 func (c02DropRecorder) AnnotatedEventf(runtime.Object, map[string]string, string, string, string, ...interface{}) {
 }
 
@@ -395,19 +406,21 @@ type c02World struct {
 
 	// C08 knowledge ledger and monitor findings (filled from simulator hooks, which run on
 	// controller goroutines; read after Reconcile returned)
-	mu        sync.Mutex
-	k         map[string]*c08KENI
-	monitor   []c08Mon
-	atQuota   bool // a monitor was evaluated at a boundary
-	seenFault map[string]bool
-	toldCreated map[string]bool
+	mu                                            sync.Mutex
+	k                                             map[string]*c08KENI
+	monitor                                       []c08Mon
+	atQuota                                       bool // a monitor was evaluated at a boundary
+	seenFault                                     map[string]bool
+	toldCreated                                   map[string]bool
 	deleteFailed, everRecorded, writeFailAtCreate map[string]bool
-	tainted    map[string]bool // pods whose binding already violates C02 through a listed finding
-	overDemand int             // settle rounds in which addresses were requested although enough were idle
-	inSettle   bool
-	settleTail [][]cloudctl.Call // calls of the last settle rounds
+	tainted                                       map[string]bool // pods whose binding already violates C02 through a listed finding
+	overDemand                                    int             // settle rounds in which addresses were requested although enough were idle
+	inSettle                                      bool
+	settleTail                                    [][]cloudctl.Call // calls of the last settle rounds
+	nilMapHit                                     map[string]bool   // "<eni>/<4|6>": a full sync was told addresses of a family the record held no map for
 
-	nt bool
+	nt      bool
+	witness *string // non-nil in a witness run: receives the violation message
 }
 
 var c02Once sync.Once
@@ -427,7 +440,7 @@ func c02Hygiene() {
 func c02NewWorld(c *vt.Ctx, s c02Scenario) *c02World {
 	c02Hygiene()
 	w := &c02World{c: c, s: s, ctx: context.Background(), live: map[int]*c02LivePod{}, everPod: map[string]bool{},
-		k: map[string]*c08KENI{}, seenFault: map[string]bool{}, toldCreated: map[string]bool{}, deleteFailed: map[string]bool{}, everRecorded: map[string]bool{}, writeFailAtCreate: map[string]bool{}, tainted: map[string]bool{}, clock: time.Now().Add(-24 * time.Hour).Truncate(time.Second)}
+		k: map[string]*c08KENI{}, seenFault: map[string]bool{}, toldCreated: map[string]bool{}, deleteFailed: map[string]bool{}, everRecorded: map[string]bool{}, writeFailAtCreate: map[string]bool{}, tainted: map[string]bool{}, nilMapHit: map[string]bool{}, clock: time.Now().Add(-24 * time.Hour).Truncate(time.Second)}
 	n := s.Node
 
 	// ---- cloud
@@ -738,8 +751,8 @@ func (w *c02World) initialPods(p c02PreENI, e *cloudctl.ENI, r *networkv1beta1.N
 		}
 		if n.V6 {
 			if len(e.V6) == 0 {
-				if !n.V4 {
-					continue
+				if !n.V4 || w.s.Mode == "C08" {
+					continue // C08: pods are bound completely or not at all
 				}
 			} else {
 				i6 = b.I6 % len(e.V6)
@@ -923,7 +936,7 @@ func c02Fam(v6 bool) string {
 func c02CheckRecord(prev, cur map[string]*networkv1beta1.NetworkInterface, pods map[string]*c02PodView, everPod map[string]bool, tainted map[string]bool, enableERDMA bool) (string, map[string]bool) {
 	facts := map[string]bool{}
 	fresh4 := map[string]bool{} // pods whose IPv4 binding was created by this pass, not by take-over
-	old6 := map[string]bool{}   // pods whose IPv6 binding existed before this pass
+	old6 := map[string]bool{}   // pods whose IPv6 binding existed before this pass or was re-adopted from the pod's report
 	where := map[string]string{}
 	type podB struct{ eni4, a4, eni6, a6 string }
 	byPod := map[string]*podB{}
@@ -984,6 +997,9 @@ func c02CheckRecord(prev, cur map[string]*networkv1beta1.NetworkInterface, pods 
 				return fmt.Sprintf("(v) pod %s reports %s but was newly bound to %s on %s", b.pod, reported, b.addr, b.eni), facts
 			}
 			facts["takeover"] = true
+			if b.v6 {
+				old6[b.pod] = true
+			}
 			if b.ipStatus != networkv1beta1.IPStatusValid || b.eniStatus != aliyunClient.ENIStatusInUse {
 				facts["takeover-invalid"] = true
 			}
